@@ -40,6 +40,11 @@ class Oracle:
         pass
 
 
+def _digest(o):
+    """64-bit digest of an observation, independent of PYTHONHASHSEED"""
+    return int.from_bytes(hashlib.blake2b(repr(o).encode(), digest_size=8).digest(), "big")
+
+
 def _safe_repr(r):
     """repr for the event log: never an object address"""
     if _heapish(r):
@@ -65,6 +70,7 @@ class Run:
         self.h = hashlib.sha256()
         self.h.update(repr(sorted(cfg.items())).encode())
         self.trace = trace  # optional list collecting human-readable lines (replay)
+        self.states = set()  # 64-bit digests of every distinct observed object state (reach measure)
         self.n_ok_mut = 0  # successful state-changing steps
         self.n_fail_mut = 0  # mutators that reached their failure branch
         self.executed = 0
@@ -110,11 +116,16 @@ class Run:
         # event-log line -> fingerprint (never draws from a PRNG, never reads a clock)
         line = [w.seq, out.op.name, step.get("recv"), out.outcome]
         if out.recv is not None and _heapish(out.recv):
-            line.append(obs(out.recv))
+            o1 = obs(out.recv)
+            line.append(o1)
+            if kind == "mut":
+                self.states.add(_digest(o1))
         if out.ok:
             r = out.result
             if _heapish(r):
-                line.append(obs(r))
+                o2 = obs(r)
+                line.append(o2)
+                self.states.add(_digest(o2))
             elif kind == "query":
                 line.append(_safe_repr(r))
         self.h.update(repr(line).encode())
